@@ -7,7 +7,10 @@ package peer
 
 import (
 	"fmt"
+	"net"
+	"os"
 	"sync"
+	"sync/atomic"
 	"time"
 
 	"verif/memconn"
@@ -29,6 +32,8 @@ type Peer struct {
 	DotuOK bool   // the peer speaks 9P2000.u
 	// VersionReply, if set, overrides the Rversion (msize, version) the peer answers with.
 	VersionReply func(t *wire.Msg) (uint32, string)
+
+	versionRefusal atomic.Pointer[func(t *wire.Msg) *wire.Msg]
 
 	mu          sync.Mutex
 	cond        *sync.Cond
@@ -286,6 +291,10 @@ func (p *Peer) SendRaw(b []byte) bool {
 			p.Srv.Close()
 		case "reset":
 			p.Srv.Reset()
+		case "timeout":
+			// the client's receive deadline ran out: every Read from now on fails the way an expired
+			// SetReadDeadline makes it fail
+			p.Cli.FailReadAfter(0, &net.OpError{Op: "read", Net: "mem", Err: os.ErrDeadlineExceeded})
 		case "stall":
 		}
 		return false
@@ -341,8 +350,25 @@ const (
 func ErrText(fid uint32) string { return fmt.Sprintf("peer says no to fid %d", fid) }
 func ErrNum(fid uint32) uint32  { return fid%200 + 1 }
 
+// RefuseVersion installs (f != nil) or removes a function that answers a Tversion with something else than an
+// Rversion (the reply carries the request's tag, NOTAG, like every reply to a Tversion).
+func (p *Peer) RefuseVersion(f func(t *wire.Msg) *wire.Msg) {
+	if f == nil {
+		p.versionRefusal.Store(nil)
+		return
+	}
+	p.versionRefusal.Store(&f)
+}
+
 // Answer computes the peer's deterministic reply to a request.
 func (p *Peer) Answer(t *wire.Msg) *wire.Msg {
+	if t.Type == wire.Tversion {
+		if f := p.versionRefusal.Load(); f != nil {
+			if r := (*f)(t); r != nil {
+				return r
+			}
+		}
+	}
 	fid := t.Fid
 	if t.Type == wire.Tauth {
 		fid = t.Afid
